@@ -149,6 +149,15 @@ def c05_r4(ctx):
                     # constructed constant when the iteration ends (the manager object survives unless it is recycled)
                     if '*' not in ms and fl['name'] not in ms:
                         continue
+                    if '*' in ms:
+                        # the whole of *self is handed to a closure / helper: fall back to "is a field of this name assigned anywhere in
+                        # process, its helpers and closures"
+                        from .. import q as _q
+                        wr = set()
+                        for h_ in ctx.facts.family(f):
+                            wr |= set(_q.written_field_names(h_))
+                        if fl['name'] not in wr:
+                            continue
                     ini = init_st.get(key)
                     site = '%s.%s|%s' % (short(f), fl['name'], variant)
                     ctx.inst(site, {'manager': f.path, 'field': fl['name'], 'constructed value': repr(ini), 'value at returns': sorted({repr(g.pre_term[n].get(key)) for n in rets})})
